@@ -214,6 +214,35 @@ var xmlEntries = []streamEntry{
 		direct: func(b []byte) (string, error) { m, err := mxj.NewMapXmlSeq(b); return canonOrNil(m), err }},
 }
 
+// the same four readers with the cast argument: the reference is the direct decode WITH the cast argument
+func init() {
+	xmlEntries = append(xmlEntries,
+		streamEntry{name: "NewMapXmlReader(cast)",
+			call: func(r io.Reader) (string, []byte, bool, error) {
+				m, err := mxj.NewMapXmlReader(r, true)
+				return canonOrNil(m), nil, m != nil, err
+			},
+			direct: func(b []byte) (string, error) { m, err := mxj.NewMapXml(b, true); return canonOrNil(m), err }},
+		streamEntry{name: "NewMapXmlReaderRaw(cast)", raw: true,
+			call: func(r io.Reader) (string, []byte, bool, error) {
+				m, raw, err := mxj.NewMapXmlReaderRaw(r, true)
+				return canonOrNil(m), raw, m != nil, err
+			},
+			direct: func(b []byte) (string, error) { m, err := mxj.NewMapXml(b, true); return canonOrNil(m), err }},
+		streamEntry{name: "NewMapXmlSeqReader(cast)",
+			call: func(r io.Reader) (string, []byte, bool, error) {
+				m, err := mxj.NewMapXmlSeqReader(r, true)
+				return canonOrNil(m), nil, m != nil, err
+			},
+			direct: func(b []byte) (string, error) { m, err := mxj.NewMapXmlSeq(b, true); return canonOrNil(m), err }},
+		streamEntry{name: "NewMapXmlSeqReaderRaw(cast)", raw: true,
+			call: func(r io.Reader) (string, []byte, bool, error) {
+				m, raw, err := mxj.NewMapXmlSeqReaderRaw(r, true)
+				return canonOrNil(m), raw, m != nil, err
+			},
+			direct: func(b []byte) (string, error) { m, err := mxj.NewMapXmlSeq(b, true); return canonOrNil(m), err }})
+}
+
 var jsonEntries = []streamEntry{
 	{name: "NewMapJsonReader",
 		call: func(r io.Reader) (string, []byte, bool, error) {
